@@ -1852,9 +1852,12 @@ class Fss(Output):
                             fobs = np.nanmean(obs[:, :, I], axis=2).flatten()
 
                             curr_bs = np.nanmean((ffcst - fobs)**2)
-                            bs[l] = curr_bs
-                            sum_obs += np.nanmean(fobs)
-                            count += 1
+                            curr_obs = np.nanmean(fobs)
+                            # A neighbourhood without any valid case has no fractions
+                            if not np.isnan(curr_bs) and not np.isnan(curr_obs):
+                                bs[l] = curr_bs
+                                sum_obs += curr_obs
+                                count += 1
 
                 if count > 0:
                     mean_obs = sum_obs / count
